@@ -105,7 +105,7 @@ func pickS[T any](g *G, label string, xs []T) T { return xs[g.pick(label, len(xs
 // variables and with each other.
 var collidePool = []string{"i0", "s0", "b0", "z0", "v0", "v1", "an0", "x", "loopv"}
 
-var strPool = []string{"a", "b", "ab", "abc", "x y", "é", "", "Zed", "a-b", "q"}
+var strPool = []string{"a", "b", "ab", "abc", "x y", "é", "", "Zed", "a-b", "q", "#", "No #", "a#b", "{", "}}"}
 var patPool = []string{"a", "^a", "b$", "^ab", "a.c", "[ab]+", "^$", "x|y"}
 
 // StdCtx is the fixed typed context every generated program may use.
